@@ -68,16 +68,16 @@ theorem derived_views (z : Zoned) (l : NaiveDT) (hl : Zoned.overflowing_naive_lo
     (by_ : -262144 ≤ y ∧ y ≤ 262143) (bm : 1 ≤ m ∧ m ≤ 12) (bd : 1 ≤ d ∧ d ≤ 31) (bo : 1 ≤ o ∧ o ≤ 366)
     (bh : 0 ≤ h ∧ h < 24) (bmi : 0 ≤ mi ∧ mi < 60) (bs : 0 ≤ s ∧ s < 60) :
     Zoned.month0 z = .ok ((m : Int) - 1) ∧ Zoned.day0 z = .ok ((d : Int) - 1) ∧
-    Zoned.ordinal0 z = .ok (o - 1) ∧ Zoned.quarter z = .ok (((m : Int) - 1) / 3 + 1) ∧
-    Zoned.year_ce z = .ok (if y < 1 then (false, 1 - y) else (true, y)) ∧
+    Zoned.ordinal0 z = .ok (o - 1) ∧ Zoned.quarter_v z = .ok (((m : Int) - 1) / 3 + 1) ∧
+    Zoned.year_ce_v z = .ok (if y < 1 then (false, 1 - y) else (true, y)) ∧
     Zoned.hour12 z = .ok (decide (h ≥ 12), if h % 12 = 0 then 12 else h % 12) ∧
     Zoned.num_seconds_from_midnight z = .ok (h * 3600 + mi * 60 + s) := by
   refine ⟨?_, ?_, ?_, ?_, ?_, ?_, ?_⟩
   · unfold Zoned.month0; rw [hl, bind_ok', hm, bind_ok']; exact pred32_ok _ (by omega)
   · unfold Zoned.day0; rw [hl, bind_ok', hd, bind_ok']; exact pred32_ok _ (by omega)
   · unfold Zoned.ordinal0; rw [hl, bind_ok', ho]; exact pred32_ok _ (by omega)
-  · unfold Zoned.quarter Zoned.month; rw [hl, bind_ok', hm, bind_ok', pred32_ok _ (by omega), bind_ok']
-  · unfold Zoned.year_ce Zoned.year; rw [hl, bind_ok', bind_ok', hy]
+  · unfold Zoned.quarter_v Zoned.month; rw [hl, bind_ok', hm, bind_ok', pred32_ok _ (by omega), bind_ok']
+  · unfold Zoned.year_ce_v Zoned.year; rw [hl, bind_ok', bind_ok', hy]
     by_cases c : y < 1
     · rw [if_pos c, if_pos c, ckI32_ok' _ (by omega), bind_ok']
       congr 2
